@@ -151,7 +151,7 @@ package cache
 //@ func LRU.Resize
 //@   mode int
 //@   props C14
-//@   requires 0 - 4611686018427387904 <= n && n <= 4611686018427387904
+//@   requires 0 - 2305843009213693952 <= n && n <= 2305843009213693952
 //@   requires lockstate(c.mu) == 0 && c.table != nil && tableOK(c.table) && noSelfLoop(c.table) && ringTail(c.root, c.table)
 //@   modifies lockstate(c.mu), mapof(c.table), objects(node), c.cap
 //@   ensures[C14] @cap c.cap == n
@@ -231,9 +231,58 @@ package cache
 //@ func FIFO.Resize
 //@   mode int
 //@   props C14
-//@   requires 0 - 4611686018427387904 <= n && n <= 4611686018427387904
+//@   requires 0 - 2305843009213693952 <= n && n <= 2305843009213693952
 //@   requires lockstate(c.mu) == 0 && c.table != nil && tableOK(c.table) && noSelfLoop(c.table) && ringTail(c.root, c.table)
 //@   modifies lockstate(c.mu), mapof(c.table), objects(node), c.cap
 //@   ensures[C14] @cap c.cap == n
 //@   ensures[C14] @fits n >= 0 ==> len(c.table) <= max(n, 0) || len(c.table) <= old(len(c.table))
+//@   ensures[C14] @unlocked lockstate(c.mu) == 0
+
+// Random: a map from base to block; eviction takes an unused block if there is
+// one, any block otherwise.
+//@ spec func rtableOK(t map[int64]bgzf.Block) bool = forall k int64 :: has(t, k) ==> (t[k] != nil && blockBase(t[k]) == k)
+
+//@ func Random.Len
+//@   mode int
+//@   props C14
+//@   requires lockstate(c.mu) >= 0
+//@   ensures[C14] @len result == len(c.table)
+
+//@ func Random.Cap
+//@   mode int
+//@   props C14
+//@   requires lockstate(c.mu) >= 0
+//@   ensures[C14] @cap result == c.cap
+
+//@ func Random.Get
+//@   mode int
+//@   props C14, C03
+//@   requires lockstate(c.mu) == 0 && rtableOK(c.table) && c.table != nil
+//@   modifies lockstate(c.mu), mapof(c.table)
+//@   ensures[C14,C03] @miss !old(has(c.table, base)) ==> result == nil
+//@   ensures[C14,C03] @hit old(has(c.table, base)) ==> (result != nil && blockBase(result) == base)
+//@   ensures[C14,C03] @removed !has(c.table, base)
+//@   ensures[C14] @others forall k int64 :: k != base ==> (has(c.table, k) == old(has(c.table, k)) && c.table[k] == old(c.table[k]))
+//@   ensures[C14] @unlocked lockstate(c.mu) == 0
+
+//@ func Random.Peek
+//@   mode int
+//@   props C14
+//@   requires lockstate(c.mu) >= 0 && rtableOK(c.table)
+//@   ensures[C14] @exist exist <==> has(c.table, base)
+//@   ensures[C14] @next (exist ==> next == blockNext(c.table[base])) && (!exist ==> next == 0 - 1)
+
+//@ func Random.Put
+//@   mode int
+//@   props C14, C03
+//@   requires lockstate(c.mu) == 0 && rtableOK(c.table) && c.table != nil && b != nil && c.cap >= 1 && len(c.table) <= c.cap
+//@   modifies lockstate(c.mu), mapof(c.table)
+//@   loop 0 invariant @scan c.table == old(c.table) && len(c.table) == old(len(c.table)) && lockstate(c.mu) == 0 - 1 && rtableOK(c.table) && d == nil &&
+//@       !has(c.table, blockBase(b)) && (forall k int64 :: visited(0, k) ==> (has(c.table, k) && blockUsed(c.table[k])))
+//@   ensures[C14] @duplicate old(has(c.table, blockBase(b))) ==> (evicted == b && !retained && len(c.table) == old(len(c.table)))
+//@   ensures[C14] @refuseunused (!old(has(c.table, blockBase(b))) && old(len(c.table)) == c.cap && !blockUsed(b)) ==> (evicted == b && !retained && len(c.table) == old(len(c.table)))
+//@   ensures[C14,C03] @retained retained ==> (has(c.table, blockBase(b)) && c.table[blockBase(b)] == b && (evicted != nil ==> (!has(c.table, blockBase(evicted)) || blockBase(evicted) == blockBase(b))))
+//@   ensures[C14] @capacity len(c.table) <= c.cap
+//@   ensures[C14] @policy (retained && evicted != nil && blockUsed(evicted)) ==> forall k int64 :: old(has(c.table, k)) ==> blockUsed(old(c.table[k]))
+//@   ensures[C14] @table rtableOK(c.table)
 //@   ensures[C14] @unlocked lockstate(c.mu) == 0
